@@ -14,7 +14,10 @@ pub mod tensor {
     pub uninterp spec fn t_sub(a: Tensor, b: Tensor) -> Tensor;
     pub uninterp spec fn t_mul(a: Tensor, b: Tensor) -> Tensor;
     pub uninterp spec fn t_mean(a: Tensor, others: Seq<Tensor>) -> Tensor;   // element-wise mean of a and all of `others`
+    pub uninterp spec fn t_mean1(a: Tensor, b: Tensor) -> Tensor;            // mean of a and ONE other tensor: (a + b) / 2
     pub uninterp spec fn t_reshape(a: Tensor, s: Shape) -> Tensor;           // same row-major element sequence, shape s
+    // reshape to the shape a tensor already has is the identity (C14)
+    pub broadcast axiom fn reshape_same(a: Tensor, s: Shape) requires shape_eq(a.shape, s) ensures #[trigger] t_reshape(a, s) == a;
     pub uninterp spec fn shape_eq(a: Shape, b: Shape) -> bool;
     impl Clone for Shape { #[verifier::external_body] fn clone(&self) -> (r: Self) ensures r == *self { Shape { _p: self._p } } }
     impl Clone for Tensor { #[verifier::external_body] fn clone(&self) -> (r: Self) ensures r == *self { Tensor { shape: Shape { _p: 0 }, data: Data { _p: 0 } } } }
@@ -32,7 +35,7 @@ pub mod tensor {
         #[verifier::external_body] pub fn add_inplace(&mut self, other: &Tensor) ensures *final(self) == t_add(*old(self), *other) { }
         #[verifier::external_body] pub fn sub_inplace(&mut self, other: &Tensor) ensures *final(self) == t_sub(*old(self), *other) { }
         #[verifier::external_body] pub fn mul_inplace(&mut self, other: &Tensor) ensures *final(self) == t_mul(*old(self), *other) { }
-        #[verifier::external_body] pub fn mean_inplace(&mut self, others: &Vec<&Tensor>) ensures *final(self) == t_mean(*old(self), derefs(others@)) { }
+        #[verifier::external_body] pub fn mean_inplace(&mut self, others: &Vec<&Tensor>) ensures *final(self) == t_mean(*old(self), derefs(others@)), others@.len() == 1 ==> *final(self) == t_mean1(*old(self), *others@[0]) { }
     }
 }
 pub mod dense {
@@ -91,7 +94,11 @@ pub open spec fn layer_fwd(l: Layer, x: Tensor) -> (Tensor, Tensor, Option<Tenso
         Layer::Feedback(d) => (feedback::fwd(d, x).0, feedback::fwd(d, x).1, Some(feedback::fwd(d, x).2)),
     }
 }
-pub struct Network { pub layers: Vec<Layer>, pub loopbacks: HashMap<usize, (usize, usize, bool)>, pub loopaccumulation: feedback::Accumulation }
+pub struct Network {
+    pub layers: Vec<Layer>,
+    pub connect: HashMap<usize, usize>, pub skipaccumulation: feedback::Accumulation,
+    pub loopbacks: HashMap<usize, (usize, usize, bool)>, pub loopaccumulation: feedback::Accumulation,
+}
 
 // ---- running a range of layers: layer from+t processes the output of layer from+t-1 (layer `from` processes x) ------------
 pub open spec fn run(ls: Seq<Layer>, x: Tensor, from: int, n: int) -> Seq<(Tensor, Tensor, Option<Tensor>)>
@@ -114,7 +121,7 @@ pub proof fn lemma_run_prefix(ls: Seq<Layer>, x: Tensor, from: int, n: int, m: i
     if m > n { lemma_run_prefix(ls, x, from, n, m - 1, t); lemma_run_len(ls, x, from, m - 1); }
 }
 
-//@unit network._forward prop=C17,C02 search=loopback.forward
+//@unit layer.inputs prop=C17
 impl Layer {
 fn inputs(&self) -> (r: &tensor::Shape)
     ensures *r == l_inputs(*self), //@ob declared_input_shape
@@ -122,6 +129,10 @@ fn inputs(&self) -> (r: &tensor::Shape)
     //@body file=src/network.rs impl=Layer fn=inputs part=whole loops=0
     //@endbody
 }
+}
+//@endunit
+//@unit layer.outputs prop=C17
+impl Layer {
 fn outputs(&self) -> (r: &tensor::Shape)
     ensures *r == l_outputs(*self), //@ob declared_output_shape
 {
@@ -129,6 +140,8 @@ fn outputs(&self) -> (r: &tensor::Shape)
     //@endbody
 }
 }
+//@endunit
+//@unit network._forward prop=C17,C02 search=loopback.forward
 impl Network {
 fn _forward(
     &self,
@@ -176,6 +189,39 @@ fn _forward(
             assert(*x == xin);
     //@end
     //@endbody
+}
+}
+//@endunit
+
+// ---- property C16 (forward clause): the input processed by layer i is the configured accumulation of its ordinary input x with the
+// input that was fed to the source layer (activated[source]), brought to x's shape
+pub open spec fn combined(acc: feedback::Accumulation, x: Tensor, src: Tensor) -> Tensor {
+    let s = t_reshape(src, x.shape);
+    match acc {
+        feedback::Accumulation::Add => t_add(x, s),
+        feedback::Accumulation::Subtract => t_sub(x, s),
+        feedback::Accumulation::Multiply => t_mul(x, s),
+        feedback::Accumulation::Overwrite => s,
+        feedback::Accumulation::Mean => t_mean1(x, s),
+    }
+}
+
+//@unit network.forward.skip prop=C16
+impl Network {
+fn forward_skip_region(&self, i: usize, x: Tensor, activated: &Vec<Tensor>) -> (r: Tensor)
+    requires
+        self.connect@.contains_key(i) ==> self.connect@[i] < activated@.len(),
+        //@requires-extra
+    ensures
+        !self.connect@.contains_key(i) ==> r == x, //@ob untouched_without_connection
+        self.connect@.contains_key(i) ==> r == combined(self.skipaccumulation, x, activated@[self.connect@[i] as int]), //@ob configured_accumulation_of_x_and_source_input
+{
+    broadcast use vstd::std_specs::hash::group_hash_axioms;
+    broadcast use reshape_same;
+    let mut x = x;
+    //@body file=src/network.rs impl=Network fn=forward part="region:/if self\.connect\.contains_key\(&i\) \{/../if self\.connect\.contains_key\(&i\) \{/" rewrites=R13,R16 loops=0
+    //@endbody
+    x
 }
 }
 //@endunit
@@ -373,6 +419,94 @@ fn forward_loopback_region(&self, i: usize, preactivated: &mut Vec<Tensor>, acti
                                 assert(derefs(fpre@) =~= pres_at(*self, a, i as int, iterations as int, idx as int));
                                 assert(derefs(fpost@) =~= posts_at(*self, a, i as int, iterations as int, idx as int));
                             }
+    //@end
+    //@endbody
+}
+}
+//@endunit
+
+// ---- the whole forward pass: fold over the layers of (skip-combine; apply the layer; loop-accumulate) ---------------------------
+/// the input layer j processes, given the activations recorded so far
+pub open spec fn processed_input(net: Network, a: Seq<Tensor>, j: int) -> Tensor {
+    if net.connect@.contains_key(j as usize) { combined(net.skipaccumulation, a[j], a[net.connect@[j as usize] as int]) } else { a[j] }
+}
+/// what a loop connection out of layer i does to the recorded (pre-activations, activations): exactly the postcondition of unit
+/// network.forward.loopback, as a function
+pub open spec fn loop_update(net: Network, u: Seq<Tensor>, a: Seq<Tensor>, i: int) -> (Seq<Tensor>, Seq<Tensor>) {
+    if !net.loopbacks@.contains_key(i as usize) { (u, a) } else {
+        let (into, k, inskips) = net.loopbacks@[i as usize];
+        (Seq::new(u.len(), |p: int| if into <= p <= i { accumulated(net.loopaccumulation, u[p], pres_at(net, a, i, k as int, p - into)) } else { u[p] }),
+         Seq::new(a.len(), |p: int| if into < p <= i + 1 { accumulated(net.loopaccumulation, a[p], posts_at(net, a, i, k as int, p - 1 - into)) } else { a[p] }))
+    }
+}
+/// recorded (pre-activations, activations) after layers 0..i
+pub open spec fn state(net: Network, input: Tensor, i: int) -> (Seq<Tensor>, Seq<Tensor>)
+    decreases i
+{
+    if i <= 0 { (Seq::empty(), seq![input]) } else {
+        let (u, a) = state(net, input, i - 1);
+        let r = layer_fwd(net.layers@[i - 1], processed_input(net, a, i - 1));
+        loop_update(net, u.push(r.0), a.push(r.1), i - 1)
+    }
+}
+pub proof fn lemma_state_len(net: Network, input: Tensor, i: int)
+    requires i >= 0
+    ensures state(net, input, i).0.len() == i, state(net, input, i).1.len() == i + 1
+    decreases i
+{ if i > 0 { lemma_state_len(net, input, i - 1); } }
+
+//@unit network.forward prop=C02,C16,C17 search=loopback.forward
+impl Network {
+pub fn forward(
+    &self,
+    input: &tensor::Tensor,
+) -> (r: (
+    Vec<tensor::Tensor>,
+    Vec<tensor::Tensor>,
+    Vec<Option<tensor::Tensor>>,
+    Vec<Vec<tensor::Tensor>>,
+))
+    requires
+        // what Network::connect / Network::loopback validated when the connections were made: source <= target, into <= outof
+        forall|t: usize| #[trigger] self.connect@.contains_key(t) ==> self.connect@[t] <= t,
+        forall|t: usize| #[trigger] self.loopbacks@.contains_key(t) ==> self.loopbacks@[t].0 <= t,
+        //@requires-extra
+    ensures
+        r.0@.len() == self.layers@.len(), r.1@.len() == self.layers@.len() + 1, //@ob one_entry_per_layer
+        r.0@ == state(*self, *input, self.layers@.len() as int).0, //@ob preactivations_are_the_fold_over_the_layers
+        // in particular the prediction (the last activation): every layer applied in order to its skip-combined input, loop
+        // connections accumulated
+        r.1@ == state(*self, *input, self.layers@.len() as int).1, //@ob activations_are_the_fold_over_the_layers
+{
+    broadcast use vstd::std_specs::hash::group_hash_axioms;
+    //@body file=src/network.rs impl=Network fn=forward part=whole rewrites=R19 loops=1 protect=preactivated,activated,x
+    //@outline unit=network.forward.skip call="x = self.forward_skip_region(i, x, &activated);"
+    //@outline unit=network.forward.loopback call="self.forward_loopback_region(i, &mut preactivated, &mut activated, &mut maxpools);"
+    //@skip /feedbacks\.extend\(fbs\);/../feedbacks\.extend\(fbs\);/
+    //@loop 1
+            invariant
+                forall|t: usize| #[trigger] self.connect@.contains_key(t) ==> self.connect@[t] <= t,
+                forall|t: usize| #[trigger] self.loopbacks@.contains_key(t) ==> self.loopbacks@[t].0 <= t,
+                preactivated@.len() == i, activated@.len() == i + 1,
+                preactivated@ == state(*self, *input, i as int).0, //@ob preactivations_are_the_fold_over_the_layers.inv
+                activated@ == state(*self, *input, i as int).1, //@ob activations_are_the_fold_over_the_layers.inv
+    //@end
+    //@before /self\.forward_loopback_region\(/
+            proof {
+                lemma_run_len(self.layers@, x, i as int, 1);
+                assert(run(self.layers@, x, i as int, 1)[0] == layer_fwd(self.layers@[i as int], x));
+                assert(x == processed_input(*self, state(*self, *input, i as int).1, i as int)); //@ob layer_receives_its_skip_combined_input
+                assert(preactivated@ =~= state(*self, *input, i as int).0.push(layer_fwd(self.layers@[i as int], x).0)); //@ob layer_output_recorded
+                assert(activated@ =~= state(*self, *input, i as int).1.push(layer_fwd(self.layers@[i as int], x).1)); //@ob layer_output_recorded
+            }
+            let ghost u0 = preactivated@;
+            let ghost a0 = activated@;
+    //@end
+    //@after /self\.forward_loopback_region\(/
+            proof {
+                assert(preactivated@ =~= loop_update(*self, u0, a0, i as int).0);
+                assert(activated@ =~= loop_update(*self, u0, a0, i as int).1);
+            }
     //@end
     //@endbody
 }
